@@ -8,11 +8,14 @@
 (* commas, wrong lengths, with replacement tokens drawn from an alphabet   *)
 (* of atoms chosen per token class (non-numeric and non-finite numbers,    *)
 (* unknown or misplaced tags, non-ASCII text, an invalid UTF-8 byte).      *)
+(* TLC prints non-ASCII characters as "?", so two atoms are placeholders   *)
+(* the writers expand: "<NA>" = two non-ASCII characters, "<FF>" = the raw *)
+(* byte 0xFF.                                                              *)
 (* TLC enumerates every sequence of faults up to a depth.                  *)
 (***************************************************************************)
 EXTENDS Integers, Sequences, FiniteSets
 
-Atoms == {"", "abc", "ñ€", "NaN", "inf", "-inf", "1e39", "-0", "1e-46", "007", "+1", "1.", "#",
+Atoms == {"", "abc", "<NA>", "NaN", "inf", "-inf", "1e39", "-0", "1e-46", "007", "+1", "1.", "#",
           "CONSUMO", "SALIDA", "DEMANDA", "AUX", "COGEN", "EL_COGEN", "vector", "<FF>"}
 
 RemoveAt(s, j) == SubSeq(s, 1, j - 1) \o SubSeq(s, j + 1, Len(s))
